@@ -68,13 +68,78 @@ Proof.
 Qed.
 
 (* ---------- cs ---------- *)
+Definition captured (l0 : list val) (s : st) : Prop := c_c s = CVal l0.
+Lemma captured_tracks : forall l0 s, captured l0 s -> tracks_c l0 s.
+Proof. intros. right. assumption. Qed.
+
+Lemma coll_touch_tracks : forall s l0, tracks_c l0 s -> tracks_c l0 (fst (coll_touch s)).
+Proof.
+  intros s l0 T. unfold tracks_c in *. dstate s. cbn in T. unfold coll_touch, get_c, get. cbn.
+  destruct T as [[-> ->]| ->]; cbn; auto. destruct cd; cbn; auto.
+Qed.
+Lemma coll_event_captured : forall s l0, tracks_c l0 s -> captured l0 (coll_event s).
+Proof.
+  intros s l0 T. unfold tracks_c, captured in *. dstate s. cbn in T. unfold coll_event, mod_c.
+  destruct T as [[-> ->]| ->]; cbn; auto. destruct cd; reflexivity.
+Qed.
+Lemma before_pop_captured : forall s l0, tracks_c l0 s -> captured l0 (before_pop s).
+Proof.
+  intros s l0 T. unfold tracks_c, captured in *. dstate s. cbn in T. unfold before_pop, mod_c.
+  destruct T as [[-> ->]| ->]; cbn; auto.
+Qed.
+Lemma set_c_d_captured : forall s l0 x, captured l0 s -> captured l0 (set_c_d x s).
+Proof. intros s l0 x C. dstate s. exact C. Qed.
+Lemma dict_setitem_captured : forall o s l0, tracks_c l0 s -> captured l0 (dict_setitem o s).
+Proof.
+  intros o s l0 T. unfold dict_setitem. destruct (same_key o (cur_coll s)); apply set_c_d_captured.
+  - apply coll_event_captured. apply captured_tracks. apply coll_event_captured. exact T.
+  - apply coll_event_captured. exact T.
+Qed.
+Lemma update_fold_tracks : forall l s l0, tracks_c l0 s -> tracks_c l0 (fold_left update_one l s).
+Proof.
+  induction l as [|o rest IH]; intros s l0 T; cbn [fold_left]; [exact T|]. apply IH. unfold update_one.
+  destruct (holder o (cur_coll s)) as [p|]; [destruct (p =? o); [exact T|]|];
+    apply captured_tracks; apply dict_setitem_captured; exact T.
+Qed.
+
+Definition dict_op (o : op) : bool :=
+  match o with
+  | CPop _ | CPopD _ | CPopItem | CDelKey _ | CSetDefault _ | CUpdate _ | CClear => true
+  | _ => false
+  end.
+
+Lemma tracks_c_dict_ops : forall k o s l0, dict_op o = true ->
+  tracks_c l0 s -> tracks_c l0 (fst (step k o s)).
+Proof.
+  intros k o s l0 DO T. pose proof (coll_touch_tracks s l0 T) as T1.
+  destruct o; try discriminate DO; cbn [step]; unfold c_pop, c_popitem, c_delkey, c_setdefault, c_update, c_clear;
+    destruct (coll_touch s) as [s1 ok]; cbn [fst] in *; destruct (negb ok); try exact T1.
+  - destruct (holder o (cur_coll s1)); cbn [fst]; apply captured_tracks.
+    + apply set_c_d_captured. apply coll_event_captured. apply captured_tracks. apply before_pop_captured. exact T1.
+    + apply before_pop_captured. exact T1.
+  - destruct (holder o (cur_coll s1)); cbn [fst]; apply captured_tracks.
+    + apply set_c_d_captured. apply coll_event_captured. apply captured_tracks. apply before_pop_captured. exact T1.
+    + apply before_pop_captured. exact T1.
+  - destruct (last_of (cur_coll s1)); cbn [fst]; apply captured_tracks.
+    + apply set_c_d_captured. apply coll_event_captured. apply captured_tracks. apply before_pop_captured. exact T1.
+    + apply before_pop_captured. exact T1.
+  - destruct (holder o (cur_coll s1)); cbn [fst]; [|exact T1].
+    apply captured_tracks. apply set_c_d_captured. apply coll_event_captured. exact T1.
+  - destruct (same_key o (cur_coll s1)); cbn [fst]; [exact T1|].
+    apply captured_tracks. apply set_c_d_captured. apply coll_event_captured. exact T1.
+  - cbn [fst]. apply update_fold_tracks. exact T1.
+  - destruct (cur_coll s1); cbn [fst]; [exact T1|].
+    apply captured_tracks. apply set_c_d_captured. apply coll_event_captured. exact T1.
+Qed.
+
 Lemma tracks_c_step : forall k o s l0, is_sync o = false ->
   tracks_c l0 s -> tracks_c l0 (fst (step k o s)).
 Proof.
   intros k o s l0 NS T.
+  destruct (dict_op o) eqn:DO; [apply tracks_c_dict_ops; assumption|].
   destruct (on_c o) eqn:OC.
   - unfold tracks_c in *. dstate s. cbn in T.
-    destruct o; try discriminate OC; unfops; (destruct T as [[-> ->]| ->]); destruct k; brv; auto.
+    destruct o; try discriminate OC; try discriminate DO; unfops; (destruct T as [[-> ->]| ->]); destruct k; brv; auto.
   - destruct (step_keepC k o s NS OC) as [C D]. unfold tracks_c in *. rewrite C, D. exact T.
 Qed.
 
